@@ -7,6 +7,7 @@ import (
 	"fmt"
 	"reflect"
 	"strings"
+	"unsafe"
 )
 
 // Verification hooks (build tag "verif" only; add-only file).  They let the verification harness explore the
@@ -27,12 +28,20 @@ func (r *Reader) VerifState() string {
 	return sb.String()
 }
 
-// VerifClone returns an independent copy of the reader that reports to onMsg.
+// VerifClone returns an independent copy of the reader that reports to onMsg: every slice field gets its
+// own backing array (found by reflection, so that buffers added later are copied too).
 func (r *Reader) VerifClone(onMsg func([]byte, int32)) *Reader {
 	c := *r
 	c.OnMsg = onMsg
-	if r.sysexBf != nil {
-		c.sysexBf = append([]byte(nil), r.sysexBf...)
+	v := reflect.ValueOf(&c).Elem()
+	for i := 0; i < v.NumField(); i++ {
+		f := v.Field(i)
+		if f.Kind() != reflect.Slice || f.IsNil() {
+			continue
+		}
+		cp := reflect.MakeSlice(f.Type(), f.Len(), f.Cap())
+		reflect.Copy(cp, f)
+		reflect.NewAt(f.Type(), unsafe.Pointer(f.UnsafeAddr())).Elem().Set(cp)
 	}
 	return &c
 }
